@@ -197,6 +197,51 @@ func c13(x *mon.Ctx) {
 		p.PceSvn = uint16(v)
 		add("pcesvn-value", fmt.Sprint(v), "exact", p, world.SgxExtension(p), nil)
 	}
+	// ---- exact: octet strings of the right size whose content happens to read as a complete DER element
+	for i, f := range []func(p *world.Platform){
+		func(p *world.Platform) { p.FMSPC[0], p.FMSPC[1] = 0x04, 0x04 },
+		func(p *world.Platform) { p.PceID = [2]byte{0x04, 0x00} },
+		func(p *world.Platform) { p.PPID[0], p.PPID[1] = 0x04, 0x0e },
+		func(p *world.Platform) { p.CPUSvn[0], p.CPUSvn[1] = 0x04, 0x0e },
+		func(p *world.Platform) { p.FMSPC[0], p.FMSPC[1] = 0x30, 0x04 },
+		func(p *world.Platform) { p.PceID = [2]byte{0x05, 0x00} },
+		func(p *world.Platform) { p.PPID[0], p.PPID[1] = 0x30, 0x0e },
+		func(p *world.Platform) { p.FMSPC = [6]byte{0x04, 0x04, 0x04, 0x02, 0x04, 0x00} },
+		func(p *world.Platform) {
+			p.FMSPC[0], p.FMSPC[1] = 0x04, 0x04
+			p.PceID = [2]byte{0x04, 0x00}
+			p.PPID[0], p.PPID[1] = 0x04, 0x0e
+			p.CPUSvn[0], p.CPUSvn[1] = 0x04, 0x0e
+		},
+	} {
+		for rep := 0; rep < 4; rep++ {
+			p := randPlat(r)
+			f(p)
+			top := world.SgxTopElems(p, world.SgxTcbElems(p))
+			if rep%2 == 1 {
+				r.Shuffle(len(top), func(a, b int) { top[a], top[b] = top[b], top[a] })
+			}
+			add("octet-content-reads-as-der", fmt.Sprintf("%d/%d", i, rep), "exact", p, world.Seq(top...), nil)
+		}
+	}
+	// ---- a required element present twice with identical content (no ambiguity about its value), anywhere: error or exact values
+	for i := 0; i < 4; i++ {
+		for at := 0; at <= 5; at++ {
+			for rep := 0; rep < 2; rep++ {
+				p := randPlat(r)
+				top := world.SgxTopElems(p, world.SgxTcbElems(p))
+				if rep == 1 {
+					r.Shuffle(len(top), func(a, b int) { top[a], top[b] = top[b], top[a] })
+				}
+				var dup []byte
+				for _, e := range world.SgxTopElems(p, world.SgxTcbElems(p))[i : i+1] {
+					dup = e
+				}
+				top = append(top[:at], append([][]byte{dup}, top[at:]...)...)
+				add("identical-duplicate-element", fmt.Sprintf("elem%d-at%d/%d", i+1, at, rep), "sane", p, world.Seq(top...), nil) // refusing is allowed, a wrong value is not
+			}
+		}
+	}
 	// ---- exact: orders
 	for _, o := range perms(5) {
 		p := randPlat(r)
@@ -379,8 +424,19 @@ func c13(x *mon.Ctx) {
 	// ---- through really signed, re-parsed certificates
 	pki := world.NewPKI(world.Far, nil)
 	ns := x.Pick(500, 5000)
+	var exactCases, otherCases []*xcase
+	for _, c := range cases {
+		if c.Expect == "exact" {
+			exactCases = append(exactCases, c)
+		} else {
+			otherCases = append(otherCases, c)
+		}
+	}
 	x.Each(ns, func(i int) {
-		c := cases[(i*7919)%len(cases)]
+		c := exactCases[(i/2*7919)%len(exactCases)]
+		if i%2 == 1 {
+			c = otherCases[(i/2*7919)%len(otherCases)]
+		}
 		if c.NoExt || c.NExt != 0 {
 			return
 		}
@@ -396,6 +452,8 @@ func c13(x *mon.Ctx) {
 	})
 	x.Require("component-value", 4096, 0, 4096)
 	x.Require("top-level-order", 120, 0, 120)
+	x.Require("octet-content-reads-as-der", 36, 0, 36)
+	x.Require("identical-duplicate-element", 0, 0, 48)
 	x.Require("tcb-element-order", 1000, 0, 1000)
 	x.Require("component-out-of-range", 0, 21, 21)
 	x.Require("pcesvn-out-of-range", 0, 6, 6)
